@@ -8,7 +8,7 @@ PID = "C13"
 RULE = ("(i) Point2D(x, y) for int/Fraction coordinates with denominators on both sides of 1e9 (up to 1e30) against the "
         "model of limit_denominator; (ii) every number in the results of operators, intersection, split, moments, move "
         "and scale on rational polygons: type (Fraction with int numerator/denominator) and exact value; int vs "
-        "Fraction vs mixed inputs give equal outputs; non-trivial = a denominator above 1e6 or a computed (not copied) "
+        "Fraction vs mixed inputs give equal outputs, each after a float evaluation of the same drawing in the same process; non-trivial = a denominator above 1e6 or a computed (not copied) "
         "value is involved; distinct = SHA-1 of the case")
 PROOF_STATUS = ("Props/C13.v: limit_denominator model total/bounded/lowest terms/identity below the cap, 3.11 = 3.12 "
                 "closing test; exact crossing parameters (C14), split points (C15), moments (C04)")
@@ -98,6 +98,9 @@ def check(ctx, case):
         nt = "int" if num == "int" else "frac"
         for op in ("|&-^" if ctx.thorough() else "|&-^"[hash(repr(a)) % 2::2]):
             e = (op, ("var", 0), ("var", 1))
+            # the same drawing evaluated with float coordinates first (a "preview"): the exact evaluation that
+            # follows in the same process must not be contaminated by anything the float run left behind
+            I.outcome(lambda: I.apply_expr([I.mk_shape(a, "float"), I.mk_shape(b, "float")], e))
             A, B = I.mk_shape(a, nt), I.mk_shape(b, "int" if num == "mixed" else nt)
             A1, B1 = I.mk_shape(a, "frac"), I.mk_shape(b, "frac")
             rr = I.outcome(lambda: I.shape_data(I.apply_expr([A1, B1], e)))
